@@ -56,7 +56,10 @@ def configs(tier, scratch):
     cwds = ["/", scratch]
     opts = [False, True]
     full = list(itertools.product(seeds, locs, utf8, cwds, opts))
-    extras = [("1", "C.utf8", "0", "/", False, e) for e in EXTRA_ENVS]
+    from ..common import library_env_names
+
+    junk = {n: "xproc-junk" for n in library_env_names() if not n.startswith(("XPROC_", "PYAB_REPO"))}
+    extras = [("1", "C.utf8", "0", "/", False, e) for e in EXTRA_ENVS + ([junk] if junk else [])]
     if tier == "thorough":
         return full + [full[0]] + extras
     # covering subset: every value of every dimension appears, every seed with >= 2 locales
@@ -72,6 +75,8 @@ EXTRA_ENVS = [  # further process-environment knobs, each run with hash seed 1 /
     {"XPROC_RECURSION": "5000", "XPROC_NOGC": "1"},
     {"PYTHONMALLOC": "malloc", "PYTHONDEVMODE": "1"},
     {"COLUMNS": "20", "TERM": "dumb", "LANGUAGE": "fr:de", "LC_CTYPE": "POSIX"},
+    {"XPROC_FAST_CLOCK": "1"},  # every clock reading is one hour after the previous one
+    {"XPROC_DECIMAL_PREC": "2", "XPROC_WARN_ERROR": "1"},  # a host application with a coarse decimal context and warnings as errors
 ]
 
 
